@@ -1,0 +1,246 @@
+//! Simulation seams for deterministic-simulation testing.
+//!
+//! This module only exists with `--cfg ast_grep_verif`. Without an installed simulator
+//! every function here is a no-op (or defers to the production code path), so the shipped
+//! behaviour is unchanged even with the cfg flag on.
+
+use ignore::{DirEntry, WalkParallel, WalkState};
+use std::path::Path;
+use std::sync::atomic::{AtomicBool, Ordering};
+use std::sync::mpsc::{Receiver, TryRecvError};
+use std::sync::{Arc, Mutex, RwLock};
+
+/// Callbacks implemented by the simulator (it lives outside this repository).
+pub trait SimHooks: Send + Sync {
+  /// A scheduling decision point. `kind` names the operation that is about to happen.
+  fn yield_point(&self, kind: &str, target: &str);
+  /// Called by the spawning thread right before `thread::spawn`; returns a token.
+  fn pre_spawn(&self, role: &str) -> u64;
+  /// First thing a new thread does (blocks until the simulator schedules it).
+  fn thread_start(&self, token: u64);
+  /// Last thing a thread does; every resource it owned has already been dropped.
+  fn thread_exit(&self, token: u64, panicking: bool);
+  /// The caller found the channel empty: block until another thread made progress.
+  /// Returns false when the run was aborted (the caller must behave as if disconnected).
+  fn block_on_channel(&self) -> bool;
+  /// The caller waits for the threads with these tokens to exit.
+  fn block_on_join(&self, tokens: &[u64]);
+  /// Number of simulated walker threads.
+  fn walker_threads(&self) -> usize;
+  /// Choose which of the `remaining` directory entries a walker thread takes next.
+  fn pick_entry(&self, remaining: usize) -> usize;
+  /// Tell the simulator what the (real) discovery phase found, sorted by path.
+  fn discovered(&self, paths: &[String]);
+  /// Injected I/O faults; `None` means "perform the real operation".
+  fn fs_read_fault(&self, path: &Path) -> Option<std::io::Error>;
+  fn fs_write_fault(&self, path: &Path) -> Option<std::io::Error>;
+  /// Free-form observation (a panic in a simulated thread, a closed channel, ...).
+  fn note(&self, kind: &str, detail: &str);
+}
+
+static HOOKS: RwLock<Option<Arc<dyn SimHooks>>> = RwLock::new(None);
+
+pub fn install(hooks: Arc<dyn SimHooks>) {
+  *HOOKS.write().unwrap() = Some(hooks);
+}
+pub fn uninstall() {
+  *HOOKS.write().unwrap() = None;
+}
+fn current() -> Option<Arc<dyn SimHooks>> {
+  HOOKS.read().unwrap().clone()
+}
+pub fn active() -> bool {
+  HOOKS.read().unwrap().is_some()
+}
+
+pub fn yield_point(kind: &str, target: &Path) {
+  if let Some(h) = current() {
+    h.yield_point(kind, &target.to_string_lossy());
+  }
+}
+
+pub fn fs_read_fault(path: &Path) -> Option<std::io::Error> {
+  let h = current()?;
+  h.yield_point("read", &path.to_string_lossy());
+  h.fs_read_fault(path)
+}
+
+pub fn fs_write_fault(path: &Path) -> Option<std::io::Error> {
+  let h = current()?;
+  h.yield_point("write", &path.to_string_lossy());
+  h.fs_write_fault(path)
+}
+
+pub struct SpawnToken(Option<(Arc<dyn SimHooks>, u64)>);
+
+pub fn pre_spawn(role: &str) -> SpawnToken {
+  SpawnToken(current().map(|h| {
+    let t = h.pre_spawn(role);
+    (h, t)
+  }))
+}
+
+/// Declare this guard *first* in a thread body: locals declared later are dropped
+/// earlier, so channel ends and other resources are gone when the exit is reported.
+pub struct ThreadGuard(Option<(Arc<dyn SimHooks>, u64)>);
+
+pub fn thread_guard(token: SpawnToken) -> ThreadGuard {
+  if let Some((h, t)) = &token.0 {
+    h.thread_start(*t);
+  }
+  ThreadGuard(token.0)
+}
+
+impl Drop for ThreadGuard {
+  fn drop(&mut self) {
+    if let Some((h, t)) = self.0.take() {
+      h.thread_exit(t, std::thread::panicking());
+    }
+  }
+}
+
+/// `Receiver::recv` with the blocking made visible to the simulator.
+pub fn sim_recv<T>(rx: &Receiver<T>) -> Option<T> {
+  let Some(h) = current() else {
+    return rx.recv().ok();
+  };
+  loop {
+    h.yield_point("recv", "");
+    match rx.try_recv() {
+      Ok(t) => {
+        h.note("recv-item", "");
+        return Some(t);
+      }
+      Err(TryRecvError::Disconnected) => {
+        h.note("recv-closed", "");
+        return None;
+      }
+      Err(TryRecvError::Empty) => {
+        h.note("recv-empty", "");
+        if !h.block_on_channel() {
+          return None;
+        }
+      }
+    }
+  }
+}
+
+type Entry = Result<DirEntry, ignore::Error>;
+type FnVisitor<'s> = Box<dyn FnMut(Entry) -> WalkState + Send + 's>;
+
+/// Wraps the parallel walker. Without a simulator: `WalkParallel::run`. With one: the real
+/// walker only *discovers* entries; the visitors produced by the same factory the
+/// production code passes to `run` are then driven by simulated walker threads.
+pub struct SimWalk(WalkParallel);
+
+impl SimWalk {
+  pub fn wrap(walker: WalkParallel) -> Self {
+    SimWalk(walker)
+  }
+
+  pub fn run<'s, F>(self, mut mkf: F)
+  where
+    F: FnMut() -> FnVisitor<'s>,
+  {
+    let Some(hooks) = current() else {
+      return self.0.run(mkf);
+    };
+    // 1. discovery: real walker, real filters; no ast-grep code runs on its threads
+    let found: Mutex<Vec<Entry>> = Mutex::new(vec![]);
+    self.0.run(|| {
+      let found = &found;
+      Box::new(move |entry| {
+        found.lock().unwrap().push(entry);
+        WalkState::Continue
+      })
+    });
+    let mut entries = found.into_inner().unwrap();
+    let key = |e: &Entry| match e {
+      Ok(d) => (0, d.path().to_string_lossy().into_owned()),
+      Err(err) => (1, err.to_string()),
+    };
+    entries.sort_by_key(key);
+    let names: Vec<String> = entries.iter().map(|e| key(e).1).collect();
+    hooks.discovered(&names);
+    // 2. distribution: K simulated walker threads, the simulator picks who takes what
+    let queue: Mutex<Vec<Entry>> = Mutex::new(entries);
+    let quit = AtomicBool::new(false);
+    let k = hooks.walker_threads().max(1);
+    let visitors: Vec<FnVisitor<'s>> = (0..k).map(|_| mkf()).collect();
+    std::thread::scope(|scope| {
+      let mut tokens = vec![];
+      for (i, visitor) in visitors.into_iter().enumerate() {
+        let token = hooks.pre_spawn(&format!("walker{i}"));
+        tokens.push(token);
+        let hooks = hooks.clone();
+        let (queue, quit) = (&queue, &quit);
+        scope.spawn(move || {
+          let _guard = thread_guard(SpawnToken(Some((hooks.clone(), token))));
+          let mut visitor = visitor; // dropped before `_guard`
+          loop {
+            hooks.yield_point("pop", "");
+            if quit.load(Ordering::SeqCst) {
+              break;
+            }
+            let entry = {
+              let mut q = queue.lock().unwrap();
+              if q.is_empty() {
+                break;
+              }
+              let i = hooks.pick_entry(q.len()).min(q.len() - 1);
+              q.remove(i)
+            };
+            let ret = std::panic::catch_unwind(std::panic::AssertUnwindSafe(|| visitor(entry)));
+            match ret {
+              Ok(WalkState::Quit) => {
+                hooks.note("walk-quit", "");
+                quit.store(true, Ordering::SeqCst);
+                break;
+              }
+              Ok(_) => {}
+              Err(p) => {
+                let msg = if let Some(s) = p.downcast_ref::<&str>() {
+                  s.to_string()
+                } else if let Some(s) = p.downcast_ref::<String>() {
+                  s.clone()
+                } else {
+                  "<panic>".to_string()
+                };
+                hooks.note("panic", &msg);
+                // `ignore` propagates a visitor panic to the thread calling `run`
+                quit.store(true, Ordering::SeqCst);
+                break;
+              }
+            }
+          }
+        });
+      }
+      hooks.block_on_join(&tokens);
+    });
+  }
+}
+
+/// The body of `run_language_server_impl` with caller-supplied I/O, so that a simulator
+/// can drive production's service wiring over an in-memory transport.
+pub async fn lsp_serve<I, O>(config: Option<std::path::PathBuf>, stdin: I, stdout: O) -> anyhow::Result<()>
+where
+  I: tokio::io::AsyncRead + Unpin,
+  O: tokio::io::AsyncWrite,
+{
+  use ast_grep_lsp::{Backend, LspService, Server};
+  let project_config = crate::config::ProjectConfig::setup(config)??;
+  let config_result = project_config.find_rules(Default::default());
+  let config_result_std: std::result::Result<_, String> = config_result
+    .map_err(|e| {
+      e.chain()
+        .map(|e| e.to_string())
+        .collect::<Vec<_>>()
+        .join(". ")
+    })
+    .map(|r| r.0);
+  let config_base = project_config.project_dir;
+  let (service, socket) =
+    LspService::build(|client| Backend::new(client, config_base, config_result_std)).finish();
+  Server::new(stdin, stdout, socket).serve(service).await;
+  Ok(())
+}
